@@ -661,7 +661,7 @@ func main() {
 			return // a corpus case (already run above) or an obligation-broken replay: nothing more to regenerate
 		}
 	}
-	n := f.N(350, 6000)
+	n := f.N(350, 3000)
 	for k := 0; k < n; k++ {
 		if only >= 0 && k != only {
 			continue
